@@ -12,6 +12,7 @@ import (
 
 	"github.com/hyperledger/aries-framework-go/pkg/didcomm/common/service"
 	"github.com/hyperledger/aries-framework-go/pkg/didcomm/transport"
+	"github.com/hyperledger/aries-framework-go/pkg/doc/did"
 )
 
 const scheme = "http://c10-"
@@ -44,11 +45,12 @@ type Net struct {
 	hold    bool // true: packets wait for the scheduler; false: delivered at once in a goroutine
 	Log     []*Packet
 	pending sync.WaitGroup
+	pub     *pubVDR
 }
 
 // NewNet makes an empty network.
 func NewNet() *Net {
-	n := &Net{agents: map[string]*Agent{}}
+	n := &Net{agents: map[string]*Agent{}, pub: &pubVDR{docs: map[string]*did.Doc{}}}
 	n.cond = sync.NewCond(&n.mu)
 
 	return n
